@@ -217,6 +217,74 @@ pub fn child(args: &[String]) -> i32 {
     0
 }
 
+/// Retain save cadence (round e): with a retain store and a save interval, the cycles in which the runtime writes the store -
+/// and what it writes - are part of the run's observable trace.  The same program, inputs and clock trace (including a
+/// restart, which takes the runtime clock back to 0) are executed twice, once as fast as possible and once with host-time
+/// pauses between the cycles; the recorded store calls must be identical.
+fn retain_cadence(sh: &mut Shard, rng: &mut Rng) {
+    use std::sync::{Arc, Mutex};
+    struct Rec(Arc<Mutex<Vec<(u64, String)>>>, Arc<std::sync::atomic::AtomicU64>);
+    impl trust_runtime::retain::RetainStore for Rec {
+        fn load(&self) -> Result<trust_runtime::RetainSnapshot, trust_runtime::error::RuntimeError> {
+            Ok(trust_runtime::RetainSnapshot::default())
+        }
+        fn store(&self, snapshot: &trust_runtime::RetainSnapshot) -> Result<(), trust_runtime::error::RuntimeError> {
+            let mut vals: Vec<String> = snapshot.values().iter().map(|(k, v)| format!("{k}={v:?}")).collect();
+            vals.sort();
+            self.0.lock().unwrap().push((self.1.load(std::sync::atomic::Ordering::SeqCst), vals.join(",")));
+            Ok(())
+        }
+    }
+    let text = "PROGRAM Main\nVAR RETAIN r : DINT; END_VAR\nVAR n : DINT; END_VAR\nr := r + DINT#1;\nn := n + DINT#1;\nEND_PROGRAM\n";
+    for trial in 0..3 {
+        let interval_ms = *rng.pick(&[5i64, 20, 50]);
+        let before = 30 + rng.usize(60); // cycles of 1 ms before the restart
+        let after = 40 + rng.usize(60); // cycles after it: the runtime clock is behind the time of the last save for a while
+        let warm = rng.bool();
+        let case = json!({"retain_cadence": {"interval_ms": interval_ms, "cycles_before": before, "cycles_after": after, "warm": warm}});
+        if !sh.begin("retain-cadence", &case) {
+            continue;
+        }
+        let run = |pause_us: u64| -> Result<Vec<(u64, String)>, String> {
+            let mut h = TestHarness::from_source(text).map_err(|e| e.to_string())?;
+            let calls = Arc::new(Mutex::new(Vec::new()));
+            let cyc = Arc::new(std::sync::atomic::AtomicU64::new(0));
+            h.runtime_mut().set_retain_store(Some(Box::new(Rec(calls.clone(), cyc.clone()))), Some(Duration::from_millis(interval_ms)));
+            for k in 0..before + after {
+                if k == before {
+                    h.runtime_mut().restart(if warm { trust_runtime::RestartMode::Warm } else { trust_runtime::RestartMode::Cold }).map_err(|e| format!("{e:?}"))?;
+                }
+                cyc.store(k as u64, std::sync::atomic::Ordering::SeqCst);
+                h.advance_time(Duration::from_millis(1));
+                let r = h.cycle();
+                if let Some(e) = r.errors.first() {
+                    return Err(format!("cycle {k}: {e:?}"));
+                }
+                if pause_us > 0 {
+                    std::thread::sleep(std::time::Duration::from_micros(pause_us));
+                }
+            }
+            let v = calls.lock().unwrap().clone();
+            Ok(v)
+        };
+        match (catch(|| run(0)), catch(|| run(1500))) {
+            (Ok(Ok(a)), Ok(Ok(b))) => {
+                sh.count("retain_cadence_runs_compared", 1);
+                sh.count("retain_store_calls_compared", a.len() as u64);
+                if a != b {
+                    let at = a.iter().zip(b.iter()).position(|(x, y)| x != y).unwrap_or(a.len().min(b.len()));
+                    sh.violation("retain-cadence|store-calls-differ-between-runs", format!("same program and clock trace, run without and with host-time pauses: {} vs {} store calls; first difference at call {at}: {:?} vs {:?}", a.len(), b.len(), a.get(at), b.get(at)), case.clone());
+                } else if !a.is_empty() {
+                    sh.nontrivial(&("retain-cadence", interval_ms, before, after, warm));
+                }
+            }
+            (a, b) => sh.inconclusive(format!("retain cadence: {:?} / {:?}", a.map(|x| x.map(|v| v.len())), b.map(|x| x.map(|v| v.len())))),
+        }
+        let _ = trial;
+        sh.end();
+    }
+}
+
 pub fn run(sh: &mut Shard) {
     let work = PathBuf::from(std::env::var("TPV_WORKDIR").unwrap_or_else(|_| "/tmp".into()));
     let thorough = sh.args.thorough();
@@ -227,9 +295,14 @@ pub fn run(sh: &mut Shard) {
         let v: J = serde_json::from_str(&std::fs::read_to_string(path).expect("replay")).expect("json");
         let r = if v.get("replay").is_some() { v["replay"].clone() } else { v };
         let r = if r.get("case").is_some() { r["case"].clone() } else { r };
+        if r.get("retain_cadence").is_some() {
+            retain_cadence(sh, &mut Rng::new(sh.args.shard_seed()));
+            return;
+        }
         batch(sh, &work, &exe, nproc, vec![r], 0);
         return;
     }
+    retain_cadence(sh, &mut rng.fork(0xcade));
     let mut round = 0u64;
     while sh.time_left() {
         round += 1;
